@@ -55,7 +55,7 @@ var bigInts = []float64{65535, 1 << 31, 1 << 40, -(1 << 31)}
 var fracs = []float64{-2.5, -0.75, -0.5, 0.25, 0.5, 1.5, 2.25, 2.5, 3.75, 9.5, 10.5, 99.75, 1000000.5}
 
 // plain strings (ASCII letters/digits/space, mixed case, with shared prefixes and numeric-looking ones)
-var plainStrs = []string{"", "a", "b", "ab", "abc", "B", "Ab", "aB", "b a", "10", "9", "1", "x", "xy", "xyz", "Zed", "zed", "m-n", "m"}
+var plainStrs = []string{"", "a", "b", "ab", "abc", "B", "Ab", "aB", "b a", "10", "9", "1", "x", "xy", "xyz", "Zed", "zed", "m-n", "m", "日本", "日", "→x"}
 
 // LIKE-hostile strings: regexp metacharacters, wildcards as data, newline
 var hostileStrs = []string{"(", "a(b", "a.b", "axb", "a*b", "a+", "[x]", "^a", "a$", "a|b", "{1}", "a?b", "50%", "a_b", "a%b", "a\nb", "A.B", "it's", "q?", "\\d"}
